@@ -1287,7 +1287,9 @@ class BaseOutlineCompiler:
             return
         if not self.ufo.data.fileNames:
             return
-        for path in self.ufo.data.fileNames:
+        # sorted: when two dumps carry the same table the one merged last wins, and
+        # the listing order differs between in-memory fonts and the various file systems
+        for path in sorted(self.ufo.data.fileNames):
             foldername, filename = os.path.split(path)
             if foldername == prefix and filename.endswith(".ttx"):
                 ttx = self.ufo.data[path].decode("utf-8")
